@@ -12,13 +12,25 @@ CFG = dict(
               "collision: Established survives; else the connection initiated by the higher identifier; loser gets Cease 6/7 "
               "(via ConnArbiter's close channel when the loser is not the caller)",
               "OPENs with identifier 0/multicast/broadcast or hold time 1/2 are rejected by the real parser",
-              "no panic"],
+              "no panic",
+              "real-task part (c07b): real accept_connection + PeerSession::run tasks over loopback TCP, both roles of one "
+              "neighbour, scripted BGP remote ends, seeded interleavings on a current-thread runtime; judged at the remote ends "
+              "at quiescence: (a) exactly one connection survives a collision, the loser reads NOTIFICATION 6/7 before EOF, the "
+              "survivor is the Established one / the one initiated by the higher identifier; (b) never both remote ends in "
+              "OpenConfirm-or-Established at quiescence; (c) after NOTIFICATION / FIN / RST / hold expiry a new connection of "
+              "that role is accepted and gets an OPEN"],
     assumptions=["both OPENs of one history carry the same remote identifier",
                  "equal local and remote identifiers: any single survivor is accepted (statement names no winner)",
                  "an OPEN received outside OpenSent counts as a message not allowed in that state",
                  "the FSM-error NOTIFICATION 'carrying that state' is read as RFC 6608 subcodes 1/2/3",
                  "arbiter driver: accept_connection / apply_disconnect protocol emulated immediately after the step that ends a session "
                  "(the window between a collision and the loser task's apply_disconnect is not explored)",
+                 "real-task part: every schedule produced is a legal schedule of the multi-threaded daemon (tasks interleave only "
+                 "at awaits; the delay between tokio::spawn and the first poll of a session task is produced by holding the accepted "
+                 "PeerSession back; a concurrent gRPC reader is represented by the script holding Global's read lock); quiescence = "
+                 "no byte at a remote end and no FSM / close-channel / task change during 4 rounds of 50 scheduler turns + one "
+                 "park in the I/O driver; harness time-outs make a scenario inconclusive, never a violation; a connection refused "
+                 "while its predecessor of the same role is still winding down after a collision is not judged",
                  "refusing to make progress (e.g. tearing down on an acceptable OPEN) is counted as unjudged, not a violation; "
                  "floors on reach:* make such a run inconclusive"],
     floor=dict(evaluations=4000000, nontrivial=200000,
@@ -33,9 +45,25 @@ CFG = dict(
                          "accept-after:disconnect": 2000, "accept-after:admin-shutdown": 1000,
                          "accept-after:collision": 20, "accept-after:fsm-error": 3000,
                          "parser:bad-open-rejected": 100000, "random:histories": 4000,
-                         "exhaustive:config-driver-combinations-completed": 100}),
+                         "exhaustive:config-driver-combinations-completed": 100,
+                         # real-task part: the windows must really be produced
+                         "real:scenarios": 100, "real:collisions-judged": 100, "real:loser-read-cease-collision": 60,
+                         "real:established-survived-newcomer": 25,
+                         "order:second-arrives:first-accepted-not-started": 8, "order:second-arrives:first-open-sent": 8,
+                         "order:second-arrives:first-open-confirm": 6, "order:second-arrives:first-established": 8,
+                         "order:teardown:other-accepted-not-started": 15, "order:teardown:other-open-sent": 12,
+                         "order:teardown:other-open-confirm": 6,
+                         "order:teardown:victim-open-sent": 10, "order:teardown:victim-open-confirm": 8,
+                         "order:teardown:victim-established": 10,
+                         "order:new-connection-after-collision:loser-task-still-running": 10,
+                         "order:accept-during-teardown:ending-task-parked-before-peer-section": 15,
+                         "order:successor-collides-as-non-caller": 25,
+                         "real:reconnect-accepted-after:disconnect": 50, "real:reconnect-accepted-after:notification": 8,
+                         "real:reconnect-accepted-after:hold-expiry": 2, "teardown-kind:HoldExpiry": 2}),
     quick=[e2("exh", "event::verif::c07::run", 8, 300, part="exhaustive", nshards=8, depth=4),
-           e2("rnd", "event::verif::c07::run", 2, 60, part="random", random=10000)],
+           e2("rnd", "event::verif::c07::run", 2, 60, part="random", random=10000),
+           e2("real", "event::verif::c07b::run", 4, 150, scenarios=120, hold_expiry=2)],
     thorough=[e2("exh", "event::verif::c07::run", 16, 3000, part="exhaustive", nshards=16, depth=5),
-              e2("rnd", "event::verif::c07::run", 4, 600, part="random", random=250000)],
+              e2("rnd", "event::verif::c07::run", 4, 600, part="random", random=250000),
+              e2("real", "event::verif::c07b::run", 6, 600, scenarios=400, hold_expiry=6)],
 )
